@@ -196,15 +196,9 @@ class MatrixExpression:
         """Scalar division."""
         return _matrix_binary_op(self, other, "/")
 
-    def __rtruediv__(self, other: float | int) -> MatrixExpression:
-        """Right scalar division: other / self."""
-        rows, cols = self.shape
-        const = Constant(other)
-        result_exprs = [
-            [BinaryOp(const, self._expressions[i][j], "/") for j in range(cols)]
-            for i in range(rows)
-        ]
-        return MatrixExpression(result_exprs)
+    def __rtruediv__(self, other: float | int | NDArray) -> MatrixExpression:
+        """Right division: other / self (element-wise for an array)."""
+        return _matrix_rtruediv(self, self._expressions, other)
 
     def __neg__(self) -> MatrixExpression:
         """Negate all elements."""
@@ -264,6 +258,30 @@ class MatrixExpression:
             >>> s = (X * Y).sum()  # Hadamard product, then sum
         """
         return MatrixSum(self)
+
+
+def _matrix_rtruediv(matrix, elements, other) -> MatrixExpression:
+    """other / matrix: a scalar is broadcast, an array is divided element by element."""
+    rows, cols = matrix.shape
+    if isinstance(other, (list, tuple)):
+        other = np.asarray(other)
+    if isinstance(other, np.ndarray) and other.ndim > 0:
+        if other.shape != (rows, cols):
+            raise DimensionMismatchError(
+                operation="division",
+                left_shape=other.shape,
+                right_shape=(rows, cols),
+            )
+        numerators = [[Constant(other[i, j]) for j in range(cols)] for i in range(rows)]
+    else:
+        const = Constant(other)
+        numerators = [[const] * cols for _ in range(rows)]
+    return MatrixExpression(
+        [
+            [BinaryOp(numerators[i][j], elements[i][j], "/") for j in range(cols)]
+            for i in range(rows)
+        ]
+    )
 
 
 def _matrix_binary_op(
@@ -973,15 +991,9 @@ class MatrixVariable:
         """Scalar division: X / 2."""
         return _matrix_binary_op(self, other, "/")
 
-    def __rtruediv__(self, other: float | int) -> MatrixExpression:
-        """Right division: scalar / X."""
-        rows, cols = self.shape
-        const = Constant(other)
-        result_exprs = [
-            [BinaryOp(const, self._variables[i][j], "/") for j in range(cols)]
-            for i in range(rows)
-        ]
-        return MatrixExpression(result_exprs)
+    def __rtruediv__(self, other: float | int | NDArray) -> MatrixExpression:
+        """Right division: scalar / X, array / X (element-wise)."""
+        return _matrix_rtruediv(self, self._variables, other)
 
     def __neg__(self) -> MatrixExpression:
         """Negate all elements: -X."""
